@@ -1,7 +1,7 @@
 (* C09 - names resolve lexically; undeclared names are rejected before anything runs. Property theorems only; whole-compiler theorems in proofs/CompilerNames.v (proofs in proofs/SymbolsProofs.v; specification in spec/ScopeSpec.v): the symbol table of symbols.rs implements the documented lookup for ALL tables and names. *)
 From NL.Model Require Import Pipeline.
-From NL.Spec Require Import ScopeSpec Sem.
-From NL.Proofs Require SymbolsProofs CompilerNames.
+From NL.Spec Require Import ScopeSpec Sem Fragment Fragment2 Fragment3.
+From NL.Proofs Require SymbolsProofs CompilerNames CompileCorrectI.
 Local Open Scope nat_scope.
 
 (* resolve IS the documented lookup: last occurrence in the flattened current context (innermost scope first, latest declaration first), then the global context - for every table, no hypothesis *)
@@ -92,6 +92,14 @@ Proof. exact CompilerNames.undeclared_never_runs. Qed.
 Theorem reference_error_exact : forall (b : block) (fuel : nat), CompilerNames.fn_ok_block b = true -> (CompilerNames.bsize b <= fuel)%nat -> compile b = Err EReferenceError -> static_check fuel b = Some EReferenceError.
 Proof. exact CompilerNames.reference_error_exact. Qed.
 
+(* SOURCE level (fragment F3: scalars, blocks, control flow, functions): every name means what the definitional semantics' lexical scoping says - parameters and locals of the function it stands in, else the global of that name (no closures), block-local declarations shadow and end with their block, slots taken again by later declarations never change what a name means - because the compiled program computes exactly what Sem.v assigns to the tree *)
+Theorem compile_correct_F3 : forall (orc : oracle) (p : block), in_F3 p = true -> ends_expr p = true -> forall bc : bytecode, compile p = Ok bc -> forall fuel : nat, (size3_b p <= fuel)%nat -> sem_program orc fuel p <> SemFuel -> (forall out : text, sem_program orc fuel p <> SemError EArgumentError out) -> (exists budget : nat, obs_eq3 (run_program orc bc budget) (sem_program orc fuel p)) \/ hits_excluded orc bc.
+Proof. exact CompileCorrectI.compile_correct_F3. Qed.
+
+(* what the compiler accepts the static pass of the semantics accepts *)
+Theorem static_accepts_F3 : forall (p : block) (bc : bytecode) (fuel : nat), in_F3 p = true -> compile p = Ok bc -> (size3_b p <= fuel)%nat -> static_check fuel p = None.
+Proof. exact CompileCorrectI.static_accepts_F3. Qed.
+
 Example nonvacuous : wf_tab symtab_new /\ body [OpDefine [120%N]; OpEnter; OpDefine [121%N]; OpNewCtx; OpDefine [97%N]; OpLeaveCtx; OpLeave; OpDefine [121%N]].
 Proof. split; [exact SymbolsProofs.wf_symtab_new | exact SymbolsProofs.ex_body]. Qed.
 Print Assumptions resolve_refines_lookup_all.
@@ -116,3 +124,5 @@ Print Assumptions accepted_scoped.
 Print Assumptions undeclared_rejected.
 Print Assumptions undeclared_never_runs.
 Print Assumptions reference_error_exact.
+Print Assumptions compile_correct_F3.
+Print Assumptions static_accepts_F3.
